@@ -178,6 +178,9 @@ def run_case(case) -> Outcome:
             if res["injected"]:
                 classes |= judge(case, run, res, out, k, True)
                 classes.add("cancel-injected")
+            else:
+                # the program ended before iteration k: a repetition of the fault-free run (under a fresh event loop)
+                classes |= judge(case, run, res, out, None, main_raises)
     out.classes = sorted(classes)
     out.counts = {"executions": runs}
     out.nontrivial = bool(classes & {"pending-at-body-end", "grandchild"})
